@@ -79,11 +79,14 @@ extern "C" int harness_main() {
 extern "C" int harness_main() {
   ir2c_global_ctors();
   std::string body = "# ninja log v7\n"; std::vector<std::string> names; std::vector<long> mt;
-  int pad = (int)verif_nondet("first_name_length", 262100, 262140);      // moves the following records across the 256 KiB boundary
-  for (int i = 0; i < 4; i++) {
-    std::string name(i == 0 ? (size_t)pad : i == 1 ? 40 : i == 2 ? 70000 : 12, (char)('a' + i)); names.push_back(name); mt.push_back(10 + i);
+  // the alignment of the short tail records relative to the 256 KiB refill boundary is symbolic (made concrete here: sizes drive every loop)
+  int step = (int)verif_concretize(verif_nondet("alignment_step", 0, VERIF_ALIGNMENTS - 1));
+  int pad = 262144 - 27 - 130 + step * (130 / VERIF_ALIGNMENTS);
+  for (int i = 0; i < 3; i++) {
+    std::string name(i == 0 ? (size_t)pad : i == 1 ? 40 : 12, (char)('a' + i)); names.push_back(name); mt.push_back(10 + i);
     char num[64]; snprintf(num, sizeof num, "%d\t%d\t%d\t", i, i + 1, 10 + i); body += num; body += name; body += "\t"; snprintf(num, sizeof num, "%x\n", 0x100 + i); body += num;
   }
+  names.push_back(names[2]); mt.push_back(mt[2]);
   // the second record again with a newer mtime: the last record must win
   { char num[64]; snprintf(num, sizeof num, "7\t8\t99\t"); body += num; body += names[1]; body += "\t101\n"; mt[1] = 99; }
   FILE* f = fopen(kLog, "wb"); fwrite(body.data(), 1, body.size(), f); fclose(f);
